@@ -5,6 +5,7 @@ import (
 	"go/token"
 	"go/types"
 	"sort"
+	"strings"
 
 	"golang.org/x/tools/go/ssa"
 )
@@ -753,3 +754,131 @@ func runCancelChecked(p *Program, r *RuleResult) {
 	}
 	r.count("rule calls in transition helpers", n)
 }
+
+// R-STEP-PROGRESS (C02, C01, C04): a step replaces the form by something else, and a case
+// continues with the branch whose label was received.
+func init() {
+	register(&Rule{Name: "R-STEP-PROGRESS", Min: 28,
+		Doc: "in the transition functions of both interpreters: (1) no store makes the executing form itself the process body again (the process would repeat the same step forever); (2) where the new body is chosen among the branches of a case, the branch's continuation is taken on the true edge of the comparison of that branch's label with the label carried by the message",
+		Run: runStepProgress})
+}
+
+func runStepProgress(p *Program, r *RuleResult) {
+	form := p.Named(processPkg, "Form")
+	n := 0
+	for _, T := range p.Implementers(form) {
+		for _, fam := range []string{"Transition", "TransitionNP"} {
+			root := p.MethodOpt(T, fam)
+			if root == nil || root.Blocks == nil {
+				continue
+			}
+			recv := root.Params[0]
+			for _, fn := range append([]*ssa.Function{root}, allAnon(root)...) {
+				view := p.View(fn)
+				ord := 0
+				isSelfForm := func(v ssa.Value) bool {
+					v = origin(v)
+					if mi, ok := v.(*ssa.MakeInterface); ok {
+						v = origin(mi.X)
+					}
+					if v == ssa.Value(recv) {
+						return true
+					}
+					// captured receiver: load of the free variable cell named like the receiver
+					if ld, ok := v.(*ssa.UnOp); ok {
+						if fv, ok := ld.X.(*ssa.FreeVar); ok && fv.Name() == recv.Name() {
+							return true
+						}
+					}
+					return false
+				}
+				for _, b := range view.Blocks() {
+					for _, in := range view.Instrs(b) {
+						st, ok := in.(*ssa.Store)
+						if !ok {
+							continue
+						}
+						if _, fname, ok := fieldNameOf(st.Addr); !ok || fname != "Body" || !isFormType(st.Val.Type()) {
+							continue
+						}
+						n++
+						ord++
+						construct := fmt.Sprintf("%s:body-store#%d", fam, ord)
+						if isSelfForm(st.Val) {
+							r.add(fnName(fn), construct, Violated, p.instrPos(st), "the process body is set to the very form that is executing: the step is repeated forever instead of continuing with what follows")
+							continue
+						}
+						// branch selection: value arrives through a phi from a block inside a loop over branches
+						bad := ""
+						var chk func(v ssa.Value, d int)
+						chk = func(v ssa.Value, d int) {
+							ph, ok := v.(*ssa.Phi)
+							if !ok || d > 3 {
+								return
+							}
+							for i, e := range ph.Edges {
+								if isNilConst(e) {
+									continue
+								}
+								if inner, ok := e.(*ssa.Phi); ok {
+									chk(inner, d+1)
+									continue
+								}
+								ld, ok := origin(e).(*ssa.UnOp)
+								if !ok {
+									continue
+								}
+								fa, ok := ld.X.(*ssa.FieldAddr)
+								if !ok {
+									continue
+								}
+								// a field of a branch (element of the form's branch list)
+								if accessPathHasIndex(accessPath(fa)) || strings.Contains(describeVal(fa.X), "[") || true {
+									pred := ph.Block().Preds[i]
+									// the label comparison that is true on the way into pred
+									okLabel := false
+									sawCmp := false
+									for f := range view.FactsAt(pred) {
+										c, isCall := f.v.(*ssa.Call)
+										if !isCall || len(c.Common().Args) < 1 {
+											continue
+										}
+										name := ""
+										if sc := c.Common().StaticCallee(); sc != nil {
+											name = sc.Name()
+										} else if c.Common().IsInvoke() {
+											name = c.Common().Method.Name()
+										}
+										if name != "Equal" {
+											continue
+										}
+										if !strings.Contains(accessPath(c.Common().Args[0])+accessPath(c.Common().Args[len(c.Common().Args)-1]), "label") &&
+											!strings.Contains(strings.ToLower(types.TypeString(c.Common().Args[0].Type(), nil)), "label") {
+											continue
+										}
+										sawCmp = true
+										if f.k == factTrue {
+											okLabel = true
+										}
+									}
+									if sawCmp && !okLabel {
+										bad = "the continuation of a branch is chosen where the comparison of its label with the received label is false (" + p.instrPos(ld) + "): the case continues with a branch that was not selected"
+									}
+								}
+							}
+						}
+						chk(st.Val, 0)
+						if bad != "" {
+							r.add(fnName(fn), construct, Violated, p.instrPos(st), bad)
+						} else {
+							r.add(fnName(fn), construct, Holds, p.instrPos(st), "")
+						}
+					}
+				}
+			}
+		}
+	}
+	r.count("body stores", n)
+}
+
+func accessPathHasIndex(ap string) bool { return strings.Contains(ap, "[]") }
